@@ -65,6 +65,8 @@ def run(ctx, rep):
     rep.not_decided = 'that the set of constructs typeshare documents as unsupported is itself complete.'
     rep.trusted = ['rustc MIR (moves, dominators, resolved callees)', 'syn / astq for guard shapes']
     prog = cg.Program(ctx.mirq('all'))
+    # R0: the look-ups the rejections (and the skip that lifts them) read must see every attribute of the node
+    pr.all_attrs_rule(ctx, rep, 'R0', ('serde_flatten', 'get_tag_key', 'get_content_key', 'get_serialized_as_type', 'is_skipped'), 7)
     r1(ctx, rep, prog)
     r2(ctx, rep)
     r3(ctx, rep, prog)
